@@ -25,7 +25,7 @@ META = {
         "left unit the classes declare is one for the reference semantics Sem.intBin (signed divisions: wherever MLIR defines the "
         "result). (C) XdslProofs.C14Rules proves rule_preserves (source defined => rewritten expression has the same value, every "
         "width) for the rule models of SignlessIntegerBinaryOperationConstantProp, ...ZeroOrUnitRight and fold() instantiated "
-        "with the regenerated kernels, cmpi on equal operands, the three select patterns, the float constant fold incl. the "
+        "with the regenerated kernels, cmpi on equal operands, the three select patterns, select-of-cmpf to maximumf/minimumf (select_cmpf_to_minmax_sound: exact unless both operands are zeros, where only the sign of zero may differ; counterexample for nnan without nsz), the float constant fold incl. the "
         "division special-casing under stated IEEE laws, reassociation under the fastmath<reassoc> licence, and sequences of "
         "sound rules; XdslProofs.C14CSE proves cse_preserves for the CSE walk on straight-line SSA code of pure operations. The "
         "rule and CSE models are tied to /repo by applying each real pattern to one-operation snippets (every integer op x widths "
@@ -40,8 +40,10 @@ META = {
         "programs and inputs in (A) is enumeration (generated programs x boundary/random inputs), not proof; runs whose source is "
         "ub/fuel/err in the reference semantics are excluded, as the property says. Programs carrying fastmath<reassoc> chains are "
         "generated separately: for them a changed float result after canonicalize is licensed by the flag and only counted; the "
-        "rewrite itself is checked by (C). Not generated: cf.switch, scf.while, vector/tensor types, cmpf+select with nnan/nsz "
-        "(SelectFoldCmpfPattern), minnumf/maxnumf, float<->int casts. The rule models cover one operation with constant / "
+        "rewrite itself is checked by (C). select(cmpf) shapes are enumerated separately (every predicate x {none,nnan,nsz,nnan+nsz,fast} x operand order x f32/f64 on all "
+        "pairs of {+-0,+-1,+-inf,NaN,+-denormal}); there a difference after canonicalize counts as licensed only when an operand is a NaN "
+        "(nnan) or both results are zeros differing in sign (nsz). Not generated: cf.switch, scf.while, vector/tensor types, "
+        "minnumf/maxnumf, float<->int casts. The rule models cover one operation with constant / "
         "non-constant operands; the greedy driver, region_dce and Folder plumbing are exercised by (A) only. The CSE theorem "
         "covers straight-line pure single-result operations; region scoping and read-only memory operations are exercised by (A) "
         "only. Known findings (listed in known_findings.json) are inherited from the interpreter (C15)."
@@ -60,7 +62,7 @@ META = {
         "translator harness/translate/py2lean.py + generate.py (regenerated and cross-checked every run)",
         "hand-written rule/CSE models lean/XdslModel/{ArithRules,CSE}.lean (tied by correspondence; kernels proved equal to the regenerated ones)",
     ],
-    "budget": {"quick": 120, "thorough": 1150},
+    "budget": {"quick": 70, "thorough": 1100},
 }
 
 
@@ -71,7 +73,7 @@ def timed(ctx: core.Ctx, name: str, f: Any) -> None:
 
 
 def run(ctx: core.Ctx) -> None:
-    from props import c14_rules, c14_tv
+    from props import c14_rules, c14_selcmpf, c14_tv
     from translate.generate import generate
 
     rep = generate(core.REPO)
@@ -87,6 +89,7 @@ def run(ctx: core.Ctx) -> None:
     timed(ctx, "cmpi_select", c14_rules.run_cmpi_select)
     timed(ctx, "float_folds", c14_rules.run_float_folds)
     timed(ctx, "reassoc", c14_rules.run_reassoc)
+    timed(ctx, "select_cmpf", c14_selcmpf.run)
     timed(ctx, "cse_blocks", c14_rules.run_cse)
     n = 110 if ctx.tier == "quick" else 6000
     t = time.time()
